@@ -74,6 +74,30 @@ CHECKS["C16"] = {
     "technique": "bounded symbolic execution (CrossHair + z3) vs the stated NameError/substitution rule, ABSENT scan",
 }
 
+CHECKS["C03"] = {
+    "category": "model_checking",
+    "text": "Bounded symbolic execution of the real call-path matching (HandlerCollection.proceed, fits_selector, accumulator "
+            "fork/build, Immediate) over call trees of three mutually calling functions driven by a symbolic script (direct, "
+            "indirect, recursive calls, repeated siblings, exceptional exits), for 35 chain/sibling selectors up to depth 3; an "
+            "independent matcher computes the embeddings of the chain into the live stack at each focus binding and the context "
+            "values they must carry; per binding the delivered events must equal the expected multiset; path trees exhausted.",
+    "design_ref": "DESIGN.md section 4, C03",
+    "note": "The solver enumerates scripts (choice vector) and decides value equalities over base+k; the order of the embeddings "
+            "of one binding is not asserted. Trusted: reference matcher pv/calltree.py, twin log, CrossHair models.",
+    "technique": "bounded symbolic execution (CrossHair + z3) over symbolic call-tree scripts vs an independent embedding matcher",
+}
+CHECKS["C07"] = {
+    "category": "model_checking",
+    "text": "Same symbolic call-tree family as C03 with focus-free selectors through probing(raw=True) (Total accumulators) and "
+            "focused selectors forced to total mode: one record per ended outermost activation (normal or exceptional) with all "
+            "values in order from matched activations underneath, none when a capture stayed empty; reference records computed "
+            "from the twin's activation log; path trees exhausted.",
+    "design_ref": "DESIGN.md section 4, C07",
+    "note": "Each value is expected once per record however many ways the chain embeds (literal reading of the property). "
+            "Trusted: reference oracle pv/calltree.py.",
+    "technique": "bounded symbolic execution (CrossHair + z3) over symbolic call-tree scripts vs an independent record oracle",
+}
+
 NOT_YET = {}
 
 
